@@ -17,7 +17,7 @@ ASSUMPTIONS = ['braces are kept out of quoted content: a quoted {tag} inside a s
                'an empty quoted string may or may not yield an empty text element']
 FLOORS = {'quick': {'distinct_nontrivial': 3000, 'wide_in_quotes': 300, 'drawing_in_quotes': 300, 'inside_shape': 200},
           'thorough': {'distinct_nontrivial': 60000, 'wide_in_quotes': 6000, 'drawing_in_quotes': 6000, 'inside_shape': 4000}}
-DRAW = " -|+/\\.,'`()_*oO#<>^vV=~:!ab"
+DRAW = " -|+/\\.,'`()_*oO#<>^vV=~:!ab\u201c\u201d"
 QC = "-|+/.<>&ab é日Ж*'_=:()─│┌╭▲字ｗ#" + "\u0301\u200b\u0306\ufe0f" + "\u1100\u26a1"
 TOL = F(0)
 
